@@ -13,7 +13,7 @@ import NdeVerif.Model.Persist
 open NdeVerif.Solver NdeVerif.Solution NdeVerif.Persist
 
 def lossFormula (lossId : Nat) (θ : Int) (train : Bool) (idx : Nat) : Int :=
-  ((θ * 7 + (idx : Int) * 13 + (lossId : Int) * 31 + (if train then 5 else 0)) % 11) * 12
+  ((θ * 7 + (idx : Int) * 13 + (lossId : Int) * 31 + (if train then 5 else 0)) % 11) * 12 - 48
 
 def metricFormula (m : Nat) (θ : Int) (train : Bool) (idx : Nat) : Int :=
   ((θ * 3 + (idx : Int) * 5 + (m : Int) * 17 + (if train then 1 else 0)) % 7) * 12
